@@ -17,7 +17,7 @@ LEVEL = "model_checking"
 
 PIX_CLAUSES = {1: "exception", 2: "rot90-not-the-modelled-bijection", 3: "regions-not-within-1px", 4: "baselines-not-within-1px",
                5: "outlines-not-within-1px", 6: "exact-rotate-layout"}
-RIDGE_CLAUSES = {7: "unrotation-not-within-1px", 1: "exception", 2: "line-count", 3: "line-position-or-heights", 4: "regions", 5: "exact-network-saw-rotated-page",
+RIDGE_CLAUSES = {7: "detect-vs-repeated-parse-of-same-maps-not-within-1px", 1: "exception", 2: "line-count", 3: "line-position-or-heights", 4: "regions", 5: "exact-network-saw-rotated-page",
                  6: "exact-end-points"}
 
 
